@@ -144,4 +144,23 @@ def lat_contention(rng):
     return 'lat_contention', prog, ['a'], inputs
 
 
-ALL = [tc, sp_count, funnel_rel, funnel_lat, neg_agg_chain, lat_contention]
+def noindex_cycle(rng):
+    """three mutually recursive relations, each scanned through its no-column index and (except the seeded one) empty when
+    run() starts: their index objects are the ones created at construction time, in whatever pool was current then"""
+    M = rng.choice([31, 61, 97])
+    def y2(e):
+        return e
+    prog = Program([Rel('p', [T.I32, T.I32]), Rel('q', [T.I32, T.I32]), Rel('r', [T.I32, T.I32]), Rel('cnt', [T.I32])],
+                   [Rule([Head('q', [V('x'), Bin('+', Bin('*', V('y'), K(2), M), K(1), M)])], [Clause('p', [AVar('x'), AVar('y')])]),
+                    Rule([Head('q', [V('x'), Bin('*', V('y'), K(2), M)])], [Clause('p', [AVar('x'), AVar('y')])]),
+                    Rule([Head('r', [V('x'), Bin('+', V('y'), K(5), M)])], [Clause('q', [AVar('x'), AVar('y')])]),
+                    Rule([Head('p', [V('x'), Bin('*', V('y'), K(3), M)])], [Clause('r', [AVar('x'), AVar('y')])]),
+                    Rule([Head('cnt', [V('n')])], [Agg('n', 'count', [], 'r', [AWild(), AWild()], None, '(n as i32)', int)])])
+
+    def inputs(rng):
+        k = rng.choice([3, 20, 60])
+        return [('p', (x, 1)) for x in range(k)]
+    return 'noindex_cycle', prog, ['p'], inputs
+
+
+ALL = [tc, sp_count, funnel_rel, funnel_lat, neg_agg_chain, lat_contention, noindex_cycle]
